@@ -631,7 +631,7 @@ class Render1:
                 self.out.append(Tok("=", "op"))
             for i, (k, v) in enumerate(e[1]):
                 if i > 0:
-                    self.out.append(Tok("", "itemsep"))
+                    self.out.append(Tok("", "pairsep"))
                 self.expr(k, 5, True)
                 self.out.append(Tok("=", "op"))
                 self.expr(v, 1, True)
@@ -969,7 +969,7 @@ class Layout:
                 prev = None
                 i += 1
                 continue
-            if it.cls == "itemsep":
+            if it.cls in ("itemsep", "pairsep"):
                 # separator between list / dictionary items: spaces or one comma
                 nxt = items[i + 1]
                 k = r.random()
@@ -979,7 +979,9 @@ class Layout:
                     pieces.append(("tok", sep.text))
                     prev = sep
                 # else: whitespace only (forced below when needed)
-                g = self.gap(prev, nxt, no_comma=True, force_space=(prev.ty != "comma"))
+                # (the pairs of a dictionary literal may also follow each other on lines of their own without a comma)
+                g = self.gap(prev, nxt, no_comma=True, force_space=(prev.ty != "comma"),
+                             pair_break=(it.cls == "pairsep" and prev.ty != "comma" and not self.plain))
                 pieces.append(("sep", g))
                 pieces.append(("tok", nxt.text))
                 if "\n" in nxt.text or "\r" in nxt.text:
@@ -1006,7 +1008,7 @@ class Layout:
         pieces.append(("sep", tail))
         return "".join(t for _, t in pieces), pieces
 
-    def gap(self, a, b, no_comma=False, force_space=False):
+    def gap(self, a, b, no_comma=False, force_space=False, pair_break=False):
         r = self.rng
         if a is None:
             return ""
@@ -1026,8 +1028,8 @@ class Layout:
             s += self.inline_comment()
             if r.random() < 0.5:
                 s += " "
-        can_break = (last_ty in ("comma", "pause", "lc", "lb", "colon", "q") or b.ty in ("rb", "rc")) and not a.opener
-        if can_break and r.random() < self.p_break:
+        can_break = (last_ty in ("comma", "pause", "lc", "lb", "colon", "q") or b.ty in ("rb", "rc") or pair_break) and not a.opener
+        if can_break and r.random() < (max(self.p_break, 0.5) if pair_break else self.p_break):
             k = r.random()
             ind = self.unit * r.randrange(0, 4)
             if k < 0.8:
